@@ -102,7 +102,7 @@ def generic_state_rules(run, op, ctx, before, after, changed, success):
     if not success:
         if changed:
             run.v("C01", "C01.nonsuccess-changed-state", "%s -> %s but %s changed: %s" % (kind, ctx.get("status"), changed, describe_change(before, after, changed[0])),
-                  op=kind, status=ctx.get("status"))
+                  op=kind, status=ctx.get("status"), io_fault=bool(ctx.get("io_fault")), multi_instruction=bool(kind == "proppatch" and len(op.get("instrs", [])) > 1))
         return
     ok = allowed_to_change(run, op, ctx)
     bad = [c for c in changed if c not in ok]
@@ -458,7 +458,8 @@ def c08(run, op, ctx, before, after, changed):
         is_write_here = ctx.get("write") and ctx.get("success") and (touched or ctx.get("rel") == path)
         if old_tag != tag and not is_write_here:
             why = "read" if ctx.get("read") else ("no-op fault %s" % op["op"] if ctx.get("nochange") else ("failed request (%s)" % ctx.get("status") if not ctx.get("success") else "write to another collection"))
-            run.v("C08", "C08.tag-changed-without-change", "%s: tag %s -> %s after %s %s" % (path, old_tag, tag, op["op"], why), backend=c.backend, cause=why.split(" ")[0])
+            run.v("C08", "C08.tag-changed-without-change", "%s: tag %s -> %s after %s %s" % (path, old_tag, tag, op["op"], why), backend=c.backend, cause=why.split(" ")[0],
+                  op=op["op"], io_fault=bool(ctx.get("io_fault")), multi_instruction=bool(op["op"] == "proppatch" and len(op.get("instrs", [])) > 1))
         if ob.member_state() != ms and old_tag == tag:
             run.v("C08", "C08.contents-changed-tag-did-not", "%s: members changed but tag stayed %s" % (path, tag), backend=c.backend)
         # equal contents => equal tag (git): key = (member state, metadata bytes)
